@@ -27,6 +27,14 @@ from .. import core, tlaval, tlc
 TOL = 1e-9
 
 
+def fixed_rng(salt):
+    """The exact instance families do not vary with VERIF_SEED: every instance must keep TLC's 32-bit rationals from
+    overflowing (an overflow is a machinery failure), which is established once per tier for these fixed sets."""
+    import random
+
+    return random.Random("splitting/" + salt)
+
+
 def rat(v):
     v = Fr(v)
     return "<<%d, %d>>" % (v.numerator, v.denominator)
@@ -54,7 +62,7 @@ def close(a, b, scale=1.0):
 def admm_instances(ctx):
     """Two families: dyadic parameters (denominators stay powers of two: long exact runs fit TLC's 32-bit integers)
     and general parameters (a = 2, rho in {1/2, 2}, b = -2), explored for one update."""
-    rng = ctx.rng("admm")
+    rng = fixed_rng("admm")
     out = []
     k = 0
     n_inst = 120 if ctx.thorough else 36
@@ -65,7 +73,7 @@ def admm_instances(ctx):
         dyadic = k % 3 != 0
         inst = {
             "id": len(out) + 1,
-            "cap": (4 if ctx.thorough else 3) if dyadic else 1,
+            "cap": 3 if dyadic else 1,
             "q": [Fr(rng.choice([1, 3])) for _ in range(n)] if dyadic else [rng.choice([Fr(1), Fr(2), Fr(1, 2)]) for _ in range(n)],
             "p": [Fr(rng.choice([-2, -1, 1, 2, 3])) for _ in range(n)],
             "c": [Fr(rng.choice([0, 0, 1, -1])) for _ in range(n)],
@@ -95,7 +103,7 @@ def admm_tla(i):
 
 
 def alm_instances(ctx):
-    rng = ctx.rng("alm")
+    rng = fixed_rng("alm")
     out = []
     n_inst = 90 if ctx.thorough else 30
     for k in range(n_inst):
@@ -127,7 +135,7 @@ def alm_tla(i):
 
 
 def newton_instances(ctx):
-    rng = ctx.rng("newton")
+    rng = fixed_rng("newton")
     out = []
     n_inst = 90 if ctx.thorough else 30
     for k in range(n_inst):
@@ -151,7 +159,7 @@ def newton_tla(i):
 
 
 def altmin_instances(ctx):
-    rng = ctx.rng("altmin")
+    rng = fixed_rng("altmin")
     out = []
     for k in range(40 if ctx.thorough else 16):
         out.append({"id": k + 1, "cap": 3, "q1": rng.choice([Fr(1), Fr(2), Fr(1, 2)]), "p1": Fr(rng.choice([-1, 1, 2])), "q2": rng.choice([Fr(1), Fr(3), Fr(1, 2)]),
@@ -164,7 +172,7 @@ def altmin_tla(i):
 
 
 def gs_instances(ctx):
-    rng = ctx.rng("gs")
+    rng = fixed_rng("gs")
     mats = [[[1]], [[2]], [[1, 0], [0, 1]], [[1, 1], [0, 1]], [[2, 1], [1, -1]], [[1], [2]], [[1, -1], [1, 1]], [[3, 1], [1, 2]]]
     out = []
     for k in range(60 if ctx.thorough else 24):
@@ -195,7 +203,7 @@ def gs_tla(i):
 
 def pdhg_instances(ctx):
     """Dyadic steps (sigma = 1, tau = 1/a^2 or smaller), scalar or per-component; zero starts with l1 and small dual steps."""
-    rng = ctx.rng("pdhg")
+    rng = fixed_rng("pdhg")
     out = []
     n_inst = 150 if ctx.thorough else 48
     for k in range(n_inst):
@@ -209,7 +217,11 @@ def pdhg_instances(ctx):
         tau = [(Fr(1) / (sig[i] * max(a[i] * a[i], Fr(1)))) * rng.choice([1, Fr(1, 2)]) for i in range(n)] if arr else [Fr(1) / (sig[0] * amax2) * rng.choice([1, Fr(1, 2)])] * n
         tau = [min(t, Fr(4)) for t in tau]
         start = ["zero", "given", "saddle"][(k // 4) % 3]
-        inst = {"id": k + 1, "cap": 2 if small else (4 if ctx.thorough else 3), "a": a, "y": [Fr(rng.choice([-3, -1, 1, 2, 4])) for _ in range(n)], "g": g,
+        fam = "tv" if k % 4 == 1 and k % 8 == 1 or k % 7 == 3 else "ls"
+        if fam == "tv":
+            a = [v if v != 0 else Fr(1) for v in a]
+        theta = [Fr(1), Fr(1), Fr(0), Fr(1, 2)][(k // 2) % 4] if not small else Fr(1)
+        inst = {"id": k + 1, "fam": fam, "theta": theta, "cap": 2 if small else 3, "a": a, "y": [Fr(rng.choice([-3, -1, 1, 2, 4])) for _ in range(n)], "g": g,
                 "lam": Fr(rng.choice([1, 3])) if g != "sq" else rng.choice([Fr(1), Fr(3)]), "lo": Fr(-1, 2), "hi": Fr(1), "tau": tau, "sigma": sig, "start": start, "arr": arr}
         if start == "given":
             inst["x0"] = [Fr(rng.choice([-1, 0, 2])) for _ in range(n)]
@@ -221,8 +233,8 @@ def pdhg_instances(ctx):
 
 
 def pdhg_tla(i):
-    return ("[id |-> %d, cap |-> %d, a |-> %s, y |-> %s, g |-> \"%s\", lam |-> %s, lo |-> %s, hi |-> %s, tau |-> %s, sigma |-> %s, x0 |-> %s, u0 |-> %s, start |-> \"%s\"]"
-            % (i["id"], i["cap"], vec(i["a"]), vec(i["y"]), i["g"], rat(i["lam"]), rat(i["lo"]), rat(i["hi"]), vec(i["tau"]), vec(i["sigma"]), vec(i["x0"]), vec(i["u0"]), i["start"]))
+    return ("[id |-> %d, fam |-> \"%s\", theta |-> %s, cap |-> %d, a |-> %s, y |-> %s, g |-> \"%s\", lam |-> %s, lo |-> %s, hi |-> %s, tau |-> %s, sigma |-> %s, x0 |-> %s, u0 |-> %s, start |-> \"%s\"]"
+            % (i["id"], i["fam"], rat(i["theta"]), i["cap"], vec(i["a"]), vec(i["y"]), i["g"], rat(i["lam"]), rat(i["lo"]), rat(i["hi"]), vec(i["tau"]), vec(i["sigma"]), vec(i["x0"]), vec(i["u0"]), i["start"]))
 
 
 # ------------------------------------------------------------------ TLC
@@ -570,8 +582,13 @@ def replay_pdhg(sp, r, insts, states):
             pg = sp.prox.L2Reg([nn], lam)
         else:
             pg = sp.prox.BoxConstraint([nn], lo, hi)
-        alg = sp.alg.PrimalDualHybridGradient(sp.prox.L2Reg([nn], 1, y=-y), pg, lambda v: a * v, lambda v: a * v, x, u, tau, sig, max_iter=max_iter, tol=0)
-        key_args = "g=%s a=%s y=%s tau=%s sigma=%s start=%s" % (inst["g"], a, y, tau, sig, inst["start"])
+        theta = float(inst["theta"])
+        if inst["fam"] == "tv":
+            alg = sp.alg.PrimalDualHybridGradient(sp.prox.Conj(sp.prox.L1Reg([nn], lam)), sp.prox.L2Reg([nn], 1, y=y), lambda v: a * v, lambda v: a * v, x, u, tau, sig,
+                                                  theta=theta, max_iter=max_iter, tol=0)
+        else:
+            alg = sp.alg.PrimalDualHybridGradient(sp.prox.L2Reg([nn], 1, y=-y), pg, lambda v: a * v, lambda v: a * v, x, u, tau, sig, theta=theta, max_iter=max_iter, tol=0)
+        key_args = "fam=%s theta=%s " % (inst["fam"], theta) + "g=%s a=%s y=%s tau=%s sigma=%s start=%s" % (inst["g"], a, y, tau, sig, inst["start"])
         nup = 0
         ok = True
         while not alg.done():
@@ -611,7 +628,7 @@ def run(ctx):
 
     r = core.EngineResult("splitting")
     wd = tlc.fresh_dir("splitting_%s" % ctx.tier)
-    mi = [0, 1, 3] if not ctx.thorough else [0, 1, 2, 4]
+    mi = [0, 1, 3] if not ctx.thorough else [0, 1, 2, 3]
     total = 0
     jobs = [
         ("ADMM", admm_instances, admm_tla, mi, ["FixedPointIsSolution", "SolutionIsFixed", "LyapunovNonIncreasing"], ["DualIsResidualSum", "CounterByOne", "CounterOnlyOnDual", "Terminates"], replay_admm),
